@@ -36,6 +36,9 @@ ACCESS = [
     K('access::nft_only_any_role', profile='acc_b32', functions=['stellar_macros::only_any_role', VIA + 'multi_role_auth_action', AC + 'has_role'], bounds=MACRO_BOUNDS),
     K('access::ownable_only_owner', functions=['stellar_macros::only_owner', 'examples/ownable ExampleContract::increment', 'ownable::enforce_owner_auth'], bounds=MACRO_BOUNDS),
     K('access::enforce_principal_auth', functions=['ownable::enforce_owner_auth', AC + 'enforce_admin_auth'], bounds=MACRO_BOUNDS),
+    K('access::history_two_calls', tier='thorough', functions=[VIA + 'grant_role', VIA + 'revoke_role', VIA + 'renounce_role'] + AUTH_FNS + ENUM_FNS,
+      bounds=STEP_BOUNDS + '; two consecutive invocations (each grant/revoke/renounce, symbolic arguments, two callers, own authorization set each, later ledger)',
+      timeout={'quick': 900, 'thorough': 1800}),
     # "after admin / ownership is renounced nobody passes the check": clause C06.<family>.renounce.nobody_passes_afterwards
     # is asserted by the two-step harnesses of the handshake family (renounce, new authorization set, enforce_*_auth)
     K('handshake::own::renounce', functions=['ownable::renounce_ownership', 'ownable::enforce_owner_auth'],
